@@ -168,31 +168,43 @@ def check(ctx, R):
     return {}
 
 
+LOGICAL_REFS = (
+    # resolver, may a branch without an item (a root type) be answered
+    ("yrs::branch::Hook::get", True),
+    ("yrs::branch::Nested::get", False),
+)
+
+
 def rule_hook(R, ctx, rid="C15.i"):
     """Resolving a logical reference answers None for a deleted collection, collected or not."""
     Y = ctx.yrs
-    R.rule(rid, "R-GUARD Hook::get: the Some answer is built only where the resolved branch has no item (a root type) or "
-                "Item::is_deleted(branch.item) answered false — from the `true` edge of that test no Some is reachable, and with the "
-                "`item is None` and `is_deleted == false` edges removed no Some is reachable at all. A deleted nested collection "
-                "resolves while its block has not been rewritten by the collector, so without the test the answer depends on "
-                "whether GC ran")
-    fn = Y.fn("yrs::branch::Hook::get")
+    R.rule(rid, "R-GUARD Hook::get and Nested::get: the Some answer is built only where Item::is_deleted(branch.item) answered false "
+                "(Hook::get: or the resolved branch has no item — a root type) — from the `true` edge of that test no Some is reachable, "
+                "and with the `is_deleted == false` (and `item is None`) edges removed no Some is reachable at all. A deleted nested "
+                "collection resolves while its block has not been rewritten by the collector, so without the test the answer depends "
+                "on whether GC ran")
+    for path, root_ok in LOGICAL_REFS:
+        _logical_ref(R, Y, rid, path, root_ok)
+
+
+def _logical_ref(R, Y, rid, path, root_ok):
+    fn = Y.fn(path)
+    name = path.rsplit("::", 2)[-2] + "::get"
     v = FnView(fn)
     cfg = fn.cfg()
     somes = [bb for bb, i, st in fn.stmts() if st["dst"] == 0 and isinstance(st["rv"], dict) and isinstance(st["rv"].get("agg"), dict)
              and st["rv"]["agg"].get("variant") == "Some" and str(st["rv"]["agg"].get("adt", "")).endswith("option::Option")]
-    R.floor(rid, "Some answers in Hook::get", len(somes), 1)
+    R.floor(rid, "Some answers in " + name, len(somes), 1)
     lits = F.switch_literals(fn)
     dl = [l for l in lits if isinstance(l.term, tuple) and term_has_call(l.term, "yrs::block::Item::is_deleted") and isinstance(l.polarity, bool)]
-    il = [l for l in lits if sshow(simp_deep(l.term), 8).endswith(".item") and l.polarity in ("None", "Some")]
+    il = [l for l in lits if sshow(simp_deep(l.term), 8).endswith(".item") and l.polarity in ("None", "Some")] if root_ok else []
     tests = fn.calls_to("yrs::block::Item::is_deleted")
-    R.floor(rid, "is_deleted tests in Hook::get", len(tests), 1)
-    if not somes or not dl or not il:
+    R.floor(rid, "is_deleted tests in " + name, len(tests), 1)
+    if not somes or not dl or (root_ok and not il):
         R.ob(rid, fn, "deleted-test", False, "no test of Item::is_deleted over the resolved branch's item (%d deleted-edges, %d item-edges)" % (len(dl), len(il)))
         return
     arg = sshow(simp_deep(v.arg(tests[0], 0, 10)), 8)
-    R.ob(rid, fn, "tested-item", "BranchID::get_branch(" in arg and arg.endswith(".item"),
-         "the test reads %s" % arg, tests[0].loc())
+    R.ob(rid, fn, "tested-item", arg.endswith(".item") or ".item as Some" in arg, "the test reads %s" % arg, tests[0].loc())
     bad = []
     for l in dl:
         if l.polarity is True:
@@ -202,5 +214,5 @@ def rule_hook(R, ctx, rid="C15.i"):
     allow = {(l.bb, l.to) for l in dl if l.polarity is False} | {(l.bb, l.to) for l in il if l.polarity == "None"}
     for s in somes:
         if cfg.reachable_without(s, allow):
-            bad.append("Some is reachable without passing `item is None` or `is_deleted == false`")
-    R.ob(rid, fn, "deleted-test", not bad, "Some only for a root type or a live item" if not bad else "; ".join(sorted(set(bad))))
+            bad.append("Some is reachable without passing `is_deleted == false`%s" % (" or `item is None`" if root_ok else ""))
+    R.ob(rid, fn, "deleted-test", not bad, "Some only for %sa live item" % ("a root type or " if root_ok else "") if not bad else "; ".join(sorted(set(bad))))
